@@ -246,8 +246,7 @@ def zero_selfcheck():
 
 
 # ----------------------------------------------------------------------------------------------------------------- R-QMUT
-INPLACE = {"append", "extend", "insert", "sort", "reverse", "remove", "pop", "clear", "add", "update", "discard", "popitem", "setdefault",
-           "fill", "resize", "put", "itemset", "difference_update", "intersection_update"}
+INPLACE = {"append", "extend", "insert", "sort", "reverse", "remove", "pop", "clear", "fill", "resize"}
 _COPIES = {"list", "set", "dict", "tuple", "sorted", "copy", "deepcopy", "array", "frozenset"}
 
 
@@ -275,10 +274,8 @@ def query_mutations(fn):
         elif isinstance(n, ast.Call) and isinstance(n.func, ast.Attribute) and n.func.attr in INPLACE and isinstance(n.func.value, ast.Name) \
                 and n.func.value.id in alias:
             out.append((n, n.func.value.id, alias[n.func.value.id][0][1], f"`.{n.func.attr}(..)`"))
-        elif isinstance(n, (ast.Assign, ast.Delete)):
-            for t in n.targets:
-                if isinstance(t, ast.Subscript) and isinstance(t.value, ast.Name) and t.value.id in alias:
-                    out.append((n, t.value.id, alias[t.value.id][0][1], "item store"))
+        # item stores through an alias (`cache = self._cache; cache[k] = v`) are not reported: memoisation and path compression are
+        # legitimate writes of a query; growth / reordering of a stored sequence or set is what changes later answers
     # only the updates that the alias definition reaches (the alias must be defined before, in source order)
     return [(n, nm, src, how) for n, nm, src, how in out if any(st.lineno <= n.lineno for st, _ in alias[nm])]
 
@@ -365,7 +362,7 @@ def apply(ctx, prop, zero=True, qmut=True, stale_modules=(), what_zero="", what_
                 n_val += zero_truthiness(ctx, f"{prop}-Z0", mn, fn, idx, what_zero or "index 0 is a valid element")
             if qmut and (is_property(fn) or fn.name.startswith(QUERY_PREFIXES)) and fn.args.args and fn.args.args[0].arg == "self":
                 query_no_mutation(ctx, f"{prop}-Q0", mn, fn, what_qmut or "queries must not change the state they read")
-            if mn in stale_modules:
+            if mn in stale_modules and "as_polyline" not in fn.name:      # debug exports may show whatever is stored
                 for c, cont, name in stale_reads(fn):
                     ctx.fail(f"{prop}-S0", ctx.site(mn, fn, c),
                              f"{getattr(fn, '_qualname', fn.name)}: the geometric quantity `{name}` is read back from a stored attribute of "
@@ -385,3 +382,10 @@ RULE_TEXT = {
     "S0": "R-STALE: geometric quantities (lengths, areas, angles, normals) used by this code are computed from the current positions, never "
           "read back from a stored attribute that happens to exist",
 }
+
+
+def rule_texts(prop, stale=False):
+    d = {f"{prop}-Z0": RULE_TEXT["Z0"], f"{prop}-Q0": RULE_TEXT["Q0"]}
+    if stale:
+        d[f"{prop}-S0"] = RULE_TEXT["S0"]
+    return d
